@@ -82,7 +82,7 @@ class Fam:
 
 class TInfo:
     __slots__ = (
-        "const", "nid", "fam", "ids", "born", "foreign", "ref", "orig_w", "entered", "vh", "grad_state", "untracked_born", "stale", "made_by",
+        "const", "nid", "fam", "ids", "born", "foreign", "ref", "orig_w", "entered", "vh", "grad_state", "untracked_born", "stale", "made_by", "chain_const",
     )
 
     def __init__(self):
@@ -94,6 +94,7 @@ class TInfo:
         self.untracked_born = False
         self.stale = False
         self.made_by = "leaf"
+        self.chain_const = False  # some view between the owner and this view is a constant
 
 
 class OpRec:
@@ -695,6 +696,9 @@ class World:
             i.orig_w = bool(sout.flags.writeable) and self.info[src_h].orig_w
         i.entered = bool(self.tracking and self.guard)
         i.made_by = od.name
+        if fam is not None and src_h is not None:
+            si = self.info[src_h]
+            i.chain_const = si.chain_const or (si.ids is not None and si.const)
         if fam is not None and src_h is not None and self.info[src_h].orig_w is False:
             i.made_by = self.info[src_h].made_by  # a view of a natively read-only array: same root cause
         if not self.tracking:
@@ -1054,7 +1058,7 @@ class World:
                 if len(fam.members) > 1 or any(self.info[k].ids is not None for k in hs):
                     for k in hs:
                         ki = self.info[k]
-                        nf = Fam(ki.nid, self.clock, self.T[k], self.T[k].shape)
+                        nf = Fam(ki.nid, -1, self.T[k], self.T[k].shape)  # born=-1: never epoch-pure
                         nf.members[k] = None
                         ki.fam = nf
                         ki.ids = None
@@ -1108,6 +1112,8 @@ class World:
                 exp[k] = ("none",)
                 continue
             fam = i.fam
+            if i.chain_const:
+                continue  # a non-constant view reached through a constant view: no statement says what its gradient is
             if i.ids is None:
                 if i.nid in reach:
                     g = cot.get(i.nid)
